@@ -14,10 +14,13 @@ CHECK_DEADLOCK FALSE
 def plans(cases, run):
     n, per = {"quick": (400, 40), "thorough": (6000, 60)}[run.tier]
     return [("mc", {"cfgs": cases, "pool": run.pool, "random": 0, "shuffle": True, "_seed": run.seed * 1000 + 1}, None, False),
-            ("rnd", {"cfgs": [], "pool": [], "random": n, "reqsPer": per, "_seed": run.seed * 1000 + 2}, None, False)]
+            ("rnd", {"cfgs": [], "pool": [], "random": n, "reqsPer": per, "conc": {"quick": 400, "thorough": 5000}[run.tier],
+                     "_seed": run.seed * 1000 + 2}, None, False)]
 
 
 def replay_plan(rp, run):
+    if rp["context"].get("conc"):
+        return [("replay", {"cfgs": [], "pool": [], "random": 0, "conc": rp["context"]["conc"]}, None, False)]
     return [("replay", {"cfgs": [rp["context"]["cfg"]], "pool": rp["context"]["reqs"], "random": 0,
                         "stacked": bool(rp["context"].get("stacked"))}, None, False)]
 
@@ -38,6 +41,8 @@ def context(ev, events):
     if events[start].get("toggle"):
         return {"cfg": dict(events[start]["cfg"], pred="toggle"), "reqs": [e["req"] for e in seq if "req" in e] +
                 [{"m": "TOGGLE", "origin": "", "acrm": "", "acrh": "", "url": ""}]}
+    if ev.get("conc"):
+        return {"cfg": events[start]["cfg"], "conc": 2000, "reqs": []}
     if ev["e"] == "cstack":
         return {"cfg": events[start]["cfg"], "stacked": True,
                 "reqs": [{"m": "GET", "origin": e["origin"], "acrm": "", "acrh": "", "url": "/u1"} for e in seq if e["e"] == "cstack"]}
